@@ -2,7 +2,7 @@
 From Coq Require Import List String Ascii Bool.
 From O2o.Model Require Import Tok Syn Attr Ast Lookup Validate Expand Derive.
 From O2o.Gen Require Import Sites.
-From O2o.Lemmas Require Import Sites NoPanic.
+From O2o.Lemmas Require Import Sites NoPanic PanicFree.
 Import ListNotations.
 
 (* every panic!/unreachable!/todo!/unwrap()/expect()/index site of the (regenerated) source inventory is
@@ -45,3 +45,17 @@ Theorem C16_variant_parent : forall order_tp e v p,
     forall msgs, validate_msgs order_tp (DEnum e) = Ok msgs -> msgs <> [].
 Proof. exact variant_parent_rejected. Qed.
 Print Assumptions C16_variant_parent.
+
+(* the whole pipeline, for every input, back end and option: whatever panic the model can raise is raised at one of the
+   30 named sites below (closed world: no other Panic constructor is reachable from derive_model) ... *)
+Theorem C16_model_sites : forall be order order_tp x s,
+    derive_model be order order_tp x = OPanic s -> In s all_sites.
+Proof. exact model_panics_at_listed_sites. Qed.
+Print Assumptions C16_model_sites.
+
+(* ... and each of those names is the model name of a row of the source inventory (classified guarded, local or known-reachable),
+   so a model panic always points at an inventoried panic!/unreachable!/todo!/unwrap/index site of /repo *)
+Theorem C16_model_sites_inventoried :
+  forallb (fun s => existsb (fun e => let '(_, _, _, _, _, _, site, _) := e in String.eqb s site) site_table) all_sites = true.
+Proof. vm_compute. reflexivity. Qed.
+Print Assumptions C16_model_sites_inventoried.
